@@ -86,6 +86,14 @@ public:
   template<bool> friend class basic_iterator;
   friend class individual<i_mep>;
 
+#if defined(VITA_VERIF)
+  // Verification hook (add-only, compiled out unless VITA_VERIF is defined):
+  // reads / forces the crossover flavour this individual passes on, so that a
+  // harness can exercise and count each of the four flavours.
+  crossover_t verif_crossover_type() const { return active_crossover_type_; }
+  void verif_crossover_type(crossover_t t) { active_crossover_type_ = t; }
+#endif
+
 private:
   // ---- Private support methods ----
   hash_t hash() const;
